@@ -971,6 +971,20 @@ class Interpreter(BaseInterpreter[TContext, TEvent]):
             if explicit_id
             else f"{self.id}:{actor_machine_key}:{uuid.uuid4()}"
         )
+        # ♻️ Reusing an explicit id replaces the earlier actor. It must be
+        #    stopped first: overwriting the registration alone left it running
+        #    and unreachable, so neither `stopChild` nor the parent's `stop()`
+        #    could ever stop it or its tasks.
+        previous = self._actors.pop(actor_id, None)
+        if previous is not None:
+            logger.warning(
+                "⚠️ Actor id '%s' is already in use; stopping the existing "
+                "actor before spawning its replacement.",
+                actor_id,
+            )
+            stopped = previous.stop()
+            if inspect.isawaitable(stopped):
+                await stopped
         child_interpreter = Interpreter(actor_machine)
         child_interpreter.parent = self
         child_interpreter.id = actor_id
